@@ -28,12 +28,16 @@ TRUSTED = [
 ASSUMPTIONS = [
     "histories consist of request_enable/request_disable on the configurable attribute, rollback(point), commit(), reads of wrapped "
     "attributes, and refused requests on wrapped attributes; lock()/freeze() end a history and are not modelled",
+    "reads whose raw attribute raises (lazily loaded metadata failing once) are part of a history: Op.readFail, no store and no "
+    "generation change; histories are sequences of completed operations on one thread - a second thread reading while a multi-flag "
+    "request is half applied is outside the property's quantifier (operation histories)",
 ]
 RULE = ("a history = 4-14 operations on a freshly configured package of a generated on-disk ebuild repository (md5-cache metadata, "
         "conditional *DEPEND/LICENSE/REQUIRED_USE/RESTRICT/SRC_URI over 5 IUSE flags + 2 non-IUSE flags (flag? groups and atoms with "
         "transitive USE deps [x?] [x=] [!x?] [!x=] with (+)/(-) defaults; a quarter of the dependency attributes depend on flags only through such atoms), random forced/masked flags and "
         "initial USE), every operation followed by 1-3 attribute reads; non-trivial = some attribute was read with two different "
-        "values in the same history (so a stale cache entry would be visible) ")
+        "values in the same history (so a stale cache entry would be visible); about one read in eight is a faulty read (the raw "
+        "package's attribute raises if consulted: it must propagate, store nothing, and the following read must be current) ")
 LEVEL_TEXT = ("Kernel-checked Lean 4 theorems about a model of PackageWrapper + LimitedChangeSet: for every history (any length, any flags, "
               "any locked set) every wrapped-attribute read returns the value computed from the current USE set (read_is_current, via the "
               "cache invariant 'entry generation <= current generation, equal generation => snapshot = USE set'); a refused request restores "
@@ -224,8 +228,44 @@ def gen_history(rng, changeable, initial, wrapped_atoms):
             ops.append({"op": "commit"})
             count = 0
         for a in rng.sample(READ_ATTRS, rng.choice([1, 1, 2, 3])):
-            ops.append({"op": "read", "attr": a})
+            # a fault: the raw package's (lazily loaded) attribute raises if this read consults it; the caller survives and
+            # usually reads the same attribute again
+            if rng.random() < 0.12:
+                ops.append({"op": "readfault", "attr": a})
+                if rng.random() < 0.8:
+                    ops.append({"op": "read", "attr": a})
+            else:
+                ops.append({"op": "read", "attr": a})
     return ops
+
+
+class RawLoadError(Exception):
+    """what the faulty raw attribute raises"""
+
+
+class FaultyRaw:
+    """the raw package with one attribute whose loading fails"""
+
+    def __init__(self, raw, attr):
+        self.__dict__["_c14_raw"] = raw
+        self.__dict__["_c14_attr"] = attr
+
+    def __getattr__(self, name):
+        if name == self.__dict__["_c14_attr"]:
+            raise RawLoadError("loading %s failed" % name)
+        return getattr(self.__dict__["_c14_raw"], name)
+
+
+def faulty_read(pkg, attr):
+    """read `attr` while the raw package's `attr` is unreadable; ('raised', None) or ('value', canonical value)"""
+    real = pkg._raw_pkg
+    object.__setattr__(pkg, "_raw_pkg", FaultyRaw(real, attr))
+    try:
+        return "value", canon(attr, getattr(pkg, attr))
+    except RawLoadError:
+        return "raised", None
+    finally:
+        object.__setattr__(pkg, "_raw_pkg", real)
 
 
 def apply_impl(pkg, op):
@@ -279,6 +319,27 @@ def check_history(ctx, fx, case, pkg, raw, ops, rep, tag):
     for i, (op, m) in enumerate(zip(ops, rep)):
         before = frozenset(pkg.use)
         step_case = dict(case, failing_step=i, op=op)
+        if op["op"] == "readfault":
+            try:
+                kind, got = faulty_read(pkg, op["attr"])
+            except Exception as e:
+                ctx.violation(step_case, f"reading {op['attr']} with a failing raw attribute raised {type(e).__name__}: {e}")
+                return
+            now = frozenset(pkg.use)
+            ctx.count("readfault_" + kind)
+            if now != before:
+                ctx.violation(step_case, f"a read changed the USE set {sorted(before)} -> {sorted(now)}")
+                return
+            # ---- the property on the real code: a value, if any, is the raw attribute under the current USE set
+            if kind == "value" and got != raw_value(fx, raw, op["attr"], now):
+                ctx.violation(step_case, f"{op['attr']} reads {got!r} (raw attribute not consulted) but the raw attribute under the "
+                                         f"current USE {sorted(now)} is {raw_value(fx, raw, op['attr'], now)!r}")
+                return
+            mkind = "value" if isinstance(m["out"], dict) else m["out"]
+            if mkind != kind or m["spec_out"] != m["out"] and mkind == "raised":
+                ctx.mismatch(step_case, f"faulty read: implementation {kind}, model {m['out']!r}, reference {m['spec_out']!r}")
+                return
+            continue
         if op["op"] == "read":
             try:
                 got = canon(op["attr"], getattr(pkg, op["attr"]))
@@ -354,6 +415,10 @@ def R(*attrs):
     return [{"op": "read", "attr": a} for a in (attrs or ("rdepend", "license", "fetchables"))]
 
 
+def F(*attrs):
+    return [{"op": "readfault", "attr": a} for a in attrs]
+
+
 def corpus():
     """boundary cases from why_tests_cant and from every defect found; (immutable, enabled, ops)"""
     E = lambda *v: [{"op": "enable", "vals": list(v)}]
@@ -389,6 +454,11 @@ def corpus():
          + R("bdepend", "pdepend", "idepend")),
         (["b"], ["a", "b", "c"], R("bdepend", "pdepend", "idepend") + D("c") + R("bdepend", "pdepend", "idepend") + D("a")
          + R("bdepend", "pdepend", "idepend")),
+        # the raw attribute raises once (lazily loaded metadata) and the caller reads again: on the very first read, after
+        # an enable / disable / rollback / commit, and while the cached value is still current (raw attribute not consulted)
+        (["b"], ["b"], F("rdepend") + R("rdepend") + F("rdepend") + E("a") + F("rdepend") + R("rdepend") + D("a") + F("rdepend", "license")
+         + R("rdepend", "license") + E("c") + R("rdepend") + RB(0) + F("rdepend") + R("rdepend") + E("a") + C + F("rdepend", "fetchables")
+         + R("rdepend", "fetchables")),
     ]
 
 
